@@ -424,7 +424,9 @@ def judge_project(ctx, seed, n_ann, task_pattern):
 
 # ------------------------------------------------------------ AOEF path
 AOEF_EDITS = ["none", "reorder_matches", "drop_match_ref", "dup_match_ref", "match_both_null", "other_clip", "score_out_of_range", "affinity_out_of_range",
-              "prediction_score_out_of_range", "predicted_tag_score_out_of_range", "clip_reversed", "clip_eval_score_out_of_range"]
+              "prediction_score_out_of_range", "predicted_tag_score_out_of_range", "clip_reversed", "clip_eval_score_out_of_range",
+              # additive edits: an otherwise complete document gains one EXTRA invalid member, listed by its owner
+              "extra_null_match_listed", "extra_prediction_out_of_range_listed", "extra_predicted_tag_out_of_range"]
 
 
 def judge_aoef_evaluation(ctx, seed, edit):
@@ -507,6 +509,32 @@ def judge_aoef_evaluation(ctx, seed, edit):
     elif edit == "clip_eval_score_out_of_range":
         if d.get("clip_evaluations"):
             rng.choice(d["clip_evaluations"])["score"] = 1.25
+            want = False
+        else:
+            applicable = False
+    elif edit == "extra_null_match_listed":
+        if ce0:
+            mid = str(g.uid())
+            d.setdefault("matches", []).append({"uuid": mid, "affinity": 0.0, "score": None})
+            ce0["matches"].append(mid)
+            want = False
+        else:
+            applicable = False
+    elif edit == "extra_prediction_out_of_range_listed":
+        cps = [cp for cp in d.get("clip_predictions") or [] if cp.get("sound_events")]
+        seps = d.get("sound_event_predictions") or []
+        if cps and seps:
+            extra = dict(rng.choice(seps)); extra["uuid"] = str(g.uid()); extra["score"] = rng.choice([1.5, -0.25, 1.0000001])
+            seps.append(extra)
+            rng.choice(cps)["sound_events"].append(extra["uuid"])
+            want = False
+        else:
+            applicable = False
+    elif edit == "extra_predicted_tag_out_of_range":
+        cand = [sp for sp in d.get("sound_event_predictions") or [] if sp.get("tags")]
+        if cand:
+            sp = rng.choice(cand)
+            sp["tags"].append([sp["tags"][0][0], rng.choice([1.5, -0.25])])
             want = False
         else:
             applicable = False
